@@ -141,7 +141,7 @@ def run(ctx):
                 "fault-free run of the same history is the reference; non-trivial = a fault that fired after >= 1 task had run; distinct by op list")
     ctx.scale_if_changed()
     proof_ok = vlib.standard_proof_part(ctx, "props/C18.v", extra_targets=["run/RunManager.vo", "proofs/TasksSrc.vo", "proofs/TasksSrcData.vo", "proofs/TasksSrcRefresh.vo", "proofs/TasksSrcSorting.vo"], translators=["tasks"])
-    cases = systematic_cases() + [mc.gen_history(ctx.rng, "fault", nops=ctx.rng.randint(5, 14)) for _ in range(ctx.pick(260, 5000))]
+    cases = systematic_cases() + [mc.gen_history(ctx.rng, "fault", nops=ctx.rng.randint(5, 14), attrdict=False) for _ in range(ctx.pick(260, 5000))]
     obs = mc.run_impl_cases(cases)
     twins = [strip_faults(c) for c in cases]
     tobs = mc.run_impl_cases(twins)
